@@ -36,13 +36,15 @@ type C12Case struct {
 	Servers  int          `json:"servers"`
 	Requests int          `json:"requests"` // per serving goroutine
 	Mutators []c12Mutator `json:"mutators"`
-	Filters  int          `json:"filters"` // container filters (exercise the composed chain)
+	Filters  int          `json:"filters"`           // container filters (exercise the composed chain)
+	Options  string       `json:"options,omitempty"` // "", "filter" (Container.OPTIONSFilter), "cors" (CORS filter with computed methods)
+	Fillers  int          `json:"fillers,omitempty"` // extra never-changing routes on the dynamic-routes service
 	// Stepped: park one request at a pause point while a mutation of its own target runs.
 	Stepped *c12Step `json:"stepped,omitempty"`
 }
 
 type c12Step struct {
-	Point    string `json:"point"`    // cond (inside selection, read lock held), filter, handler
+	Point    string `json:"point"`    // cond (inside selection, read lock held), cond2 (second evaluation for the same request: inside computeAllowedMethods), filter, handler
 	Mutation string `json:"mutation"` // remove_service, remove_route, add_other
 	Target   string `json:"target"`   // service | route: which changing target the parked request addresses
 }
@@ -52,9 +54,15 @@ func genC12(t *rapid.T) C12Case {
 	c.Router = rapid.SampledFrom([]string{model.Curly, model.JSR311}).Draw(t, "router")
 	c.Via = rapid.SampledFrom([]string{harness.ViaDispatch, harness.ViaServe}).Draw(t, "via")
 	c.Filters = rapid.IntRange(0, 3).Draw(t, "filters")
+	c.Options = rapid.SampledFrom([]string{"", "", "filter", "cors"}).Draw(t, "options")
+	c.Fillers = rapid.SampledFrom([]int{0, 0, 50, 500}).Draw(t, "fillers")
 	if rapid.IntRange(0, 3).Draw(t, "stepped") == 0 {
+		points := []string{"cond", "filter", "handler"}
+		if c.Options != "" {
+			points = append(points, "cond2", "cond2")
+		}
 		c.Stepped = &c12Step{
-			Point:    rapid.SampledFrom([]string{"cond", "filter", "handler"}).Draw(t, "point"),
+			Point:    rapid.SampledFrom(points).Draw(t, "point"),
 			Mutation: rapid.SampledFrom([]string{"remove_service", "remove_route", "add_other"}).Draw(t, "mutation"),
 			Target:   rapid.SampledFrom([]string{"service", "route"}).Draw(t, "steptarget"),
 		}
@@ -65,8 +73,13 @@ func genC12(t *rapid.T) C12Case {
 	c.Servers = rapid.IntRange(2, 8).Draw(t, "servers")
 	c.Requests = rapid.IntRange(20, 200).Draw(t, "requests")
 	nm := rapid.IntRange(1, 3).Draw(t, "nmutators")
+	sameKind := rapid.SampledFrom([]string{"", "", "route", "service"}).Draw(t, "samekind") // several mutators on one WebService / one container
 	for i := 0; i < nm; i++ {
-		c.Mutators = append(c.Mutators, c12Mutator{Kind: rapid.SampledFrom([]string{"service", "route"}).Draw(t, "mkind"), Toggles: rapid.IntRange(20, 200).Draw(t, "toggles")})
+		k := rapid.SampledFrom([]string{"service", "route"}).Draw(t, "mkind")
+		if sameKind != "" {
+			k = sameKind
+		}
+		c.Mutators = append(c.Mutators, c12Mutator{Kind: k, Toggles: rapid.IntRange(20, 200).Draw(t, "toggles")})
 	}
 	return c
 }
@@ -117,11 +130,28 @@ func checkC12(c C12Case) (vs []*Violation) {
 	parkOn.Store("")
 	parked := make(chan string, 4)
 	release := make(chan struct{})
+	var condEvals int64 // evaluations of an If-condition for the request that is to be parked
 	park := func(r *http.Request, point string) {
-		if c.Stepped != nil && c.Stepped.Point == point && r.Header.Get("X-Park") == "1" {
+		if c.Stepped == nil || r.Header.Get("X-Park") != "1" {
+			return
+		}
+		if point == "cond" && c.Stepped.Point == "cond2" {
+			if atomic.AddInt64(&condEvals, 1) != 2 {
+				return
+			}
+			point = "cond2"
+		}
+		if c.Stepped.Point == point {
 			parked <- point
 			<-release
 		}
+	}
+	switch c.Options {
+	case "filter":
+		ct.Filter(ct.OPTIONSFilter)
+	case "cors":
+		cors := restful.CrossOriginResourceSharing{AllowedDomains: []string{"http://a.com"}, Container: ct}
+		ct.Filter(cors.Filter)
 	}
 	for i := 0; i < c.Filters; i++ {
 		first := i == 0
@@ -159,6 +189,9 @@ func checkC12(c C12Case) (vs []*Violation) {
 	dyn.Path("/dyn")
 	dyn.SetDynamicRoutes(true)
 	dyn.Route(dyn.GET("/fixed").To(handler("dyn-fixed")))
+	for i := 0; i < c.Fillers; i++ {
+		dyn.Route(dyn.GET("/filler/" + strconv.Itoa(i)).To(handler("filler")))
+	}
 	ct.Add(dyn)
 
 	type stableProbe struct {
@@ -166,6 +199,10 @@ func checkC12(c C12Case) (vs []*Violation) {
 	}
 	outcome := func(method, path string, parkIt bool) string {
 		hr := harness.NewHTTPRequest(model.ReqSpec{Method: method, Path: path}, "c12")
+		if method == "OPTIONS" {
+			hr.Header.Set("Origin", "http://a.com")
+			hr.Header.Set("Access-Control-Request-Method", "GET")
+		}
 		if parkIt {
 			hr.Header.Set("X-Park", "1")
 		}
@@ -183,9 +220,13 @@ func checkC12(c C12Case) (vs []*Violation) {
 				ct.Dispatch(w, hr)
 			}
 		}()
-		return fmt.Sprintf("status=%d route=%q id=%q allow=%q panic=%q", w.Code, w.Header().Get("X-Route"), w.Header().Get("X-Param"), w.Header().Get("Allow"), pan)
+		return fmt.Sprintf("status=%d route=%q id=%q allow=%q acam=%q panic=%q", w.Code, w.Header().Get("X-Route"), w.Header().Get("X-Param"), w.Header().Get("Allow"), w.Header().Get("Access-Control-Allow-Methods"), pan)
 	}
 	stables := []stableProbe{{"GET", "/stable/a", ""}, {"GET", "/stable/item/7", ""}, {"POST", "/stable/a", ""}, {"DELETE", "/stable/a", ""}, {"GET", "/stable/none", ""}, {"GET", "/dyn/fixed", ""}}
+	if c.Options != "" {
+		// OPTIONS requests are answered by the filter from the registered routes (computed methods)
+		stables = append(stables, stableProbe{"OPTIONS", "/stable/a", ""}, stableProbe{"OPTIONS", "/stable/item/7", ""})
+	}
 	for i := range stables {
 		stables[i].want = outcome(stables[i].method, stables[i].path, false)
 	}
@@ -247,14 +288,19 @@ func checkC12(c C12Case) (vs []*Violation) {
 		vmu.Unlock()
 	}
 	var overlapped, total int64
-	judgeChanging := func(tg *c12Target, parkIt bool) {
+	judgeChanging := func(tg *c12Target, parkIt bool, method string) {
 		s := atomic.LoadInt64(&clock)
-		got := outcome("GET", tg.path, parkIt)
+		got := outcome(method, tg.path, parkIt)
 		e := atomic.LoadInt64(&clock)
 		atomic.AddInt64(&total, 1)
-		present := fmt.Sprintf("status=200 route=%q id=\"\" allow=\"\" panic=\"\"", tg.routeID)
+		present := fmt.Sprintf("status=200 route=%q id=\"\" allow=\"\" acam=\"\" panic=\"\"", tg.routeID)
 		isPresent := got == present
 		isAbsent := strings.HasPrefix(got, "status=404 route=\"\"") && strings.HasSuffix(got, "panic=\"\"")
+		if method == "OPTIONS" {
+			// answered by the OPTIONS/CORS filter: the methods listed must be those of a state that existed
+			isPresent = strings.HasPrefix(got, "status=200") && (strings.Contains(got, "allow=\"GET\"") || strings.Contains(got, "acam=\"GET\""))
+			isAbsent = strings.HasSuffix(got, "panic=\"\"") && !strings.Contains(got, "GET")
+		}
 		switch tg.verdict(s, e) {
 		case "present":
 			if !isPresent {
@@ -284,7 +330,11 @@ func checkC12(c C12Case) (vs []*Violation) {
 			ti = 1
 		}
 		wg.Add(1)
-		go func() { defer wg.Done(); judgeChanging(targets[ti], true) }()
+		stepMethod := "GET"
+		if c.Stepped.Point == "cond2" {
+			stepMethod = "OPTIONS"
+		}
+		go func() { defer wg.Done(); judgeChanging(targets[ti], true, stepMethod) }()
 		select {
 		case <-parked:
 			mdone := make(chan struct{})
@@ -304,7 +354,7 @@ func checkC12(c C12Case) (vs []*Violation) {
 					atomic.AddInt64(&clock, 1)
 				}
 			}()
-			if c.Stepped.Point == "cond" && c.Stepped.Mutation != "remove_route" {
+			if (c.Stepped.Point == "cond" || c.Stepped.Point == "cond2") && c.Stepped.Mutation != "remove_route" {
 				// the parked request holds the container's read lock: a container mutation can only
 				// complete after the request left selection; give it a moment to queue up, then resume
 				time.Sleep(2 * time.Millisecond)
@@ -336,7 +386,11 @@ func checkC12(c C12Case) (vs []*Violation) {
 							addV(viol("", "%s %s is not being changed; quiet answer {%s}, answer during changes {%s}", p.method, p.path, p.want, got))
 						}
 					} else {
-						judgeChanging(targets[k-len(stables)], false)
+						m := "GET"
+						if c.Options != "" && (g+i)%3 == 0 {
+							m = "OPTIONS"
+						}
+						judgeChanging(targets[k-len(stables)], false, m)
 					}
 				}
 			}(g)
@@ -367,6 +421,12 @@ func checkC12(c C12Case) (vs []*Violation) {
 			addV(viol("", "goroutines did not finish within 60s; dump shows blocked goroutines:\n%s", truncate([]byte(dump), 3000)))
 		} else {
 			inconclusive("C12", "TestC12", "goroutines did not finish within 60s and the dump shows no blocked goroutine")
+		}
+	}
+	if len(vs) == 0 {
+		// after everything has finished the final registration state is known exactly
+		for _, tg := range targets {
+			judgeChanging(tg, false, "GET")
 		}
 	}
 	nontrivial := atomic.LoadInt64(&overlapped) > 0 || c.Stepped != nil
